@@ -490,6 +490,18 @@ def run(prog, rep):
             "descriptor is dropped" % (line(_brt[0][1]), _brt[0][2], _brt[0][0].name) if _brt else "fewer result tests than expected (%d)" % _nrt), _brt[0][1] if _brt else _ru.functions[sorted(_ru.functions)[0]].loc[0])
     check_error_contract(rep, "C07.2", prog, ['pshm-posix.c', 'pshm-sysv.c'], 15)
     check_zero_init(rep, "C07.2", prog, ['pshm-posix.c', 'pshm-sysv.c'], 1)
+    from plint.wiring import clean_covers_create
+    for (_un, _rule, _cr, _cl) in [('pshm-posix.c', 'C07.2', 'pp_shm_create_handle', 'pp_shm_clean_handle'), ('pshm-sysv.c', 'C07.6', 'pp_shm_create_handle', 'pp_shm_clean_handle')]:
+        _u = prog.units.get(_un)
+        if _u is None:
+            continue
+        _nf, _miss = clean_covers_create(_u, _cr, _cl)
+        if _nf < 2:
+            raise AnalysisBroken("%s: %s stores fewer than two fields of the handle" % (_un, _cr))
+        rep.ob(_rule, _u.fn(_cl, raw=True), "clean:covers-create", not _miss,
+               "%s resets each of the %d fields %s stores" % (_cl, _nf, _cr) if not _miss else
+               "%s no longer resets %s, which %s stores and tests: the recovery path (clean-up, then create again on the same object) finds the old value - "
+               "a handle that once owned the object re-initialises the shared state it merely re-joined and removes it at free" % (_cl, ", ".join(_miss), _cr), _u.fn(_cl, raw=True).loc[0])
 
 # generic robustness battery: renaming every local/parameter in these files must not change any verdict
 RENAME_LOCALS = ['src/pshm-posix.c']
